@@ -104,9 +104,13 @@ pub fn run(s: &Scn, ctx: &mut RunCtx) -> RunOutput {
             }),
             4 => {
                 let backup = SimInner::new(1);
+                // the backup *function* does its observable work when it is invoked (not lazily
+                // inside the returned future): invoking it for a request that needs no fallback
+                // is visible in the backup's call log
                 b.service(move |req: Req| {
                     let mut bk = backup.clone();
-                    async move { bk.call(req).await }
+                    let fut = bk.call(req);
+                    async move { fut.await }
                 })
             }
             _ => b.exception(|e: SimErr| {
